@@ -12,6 +12,8 @@
  *   link S T OFF             store the address of slot T (+OFF: interior) in the first word of slot S (S needs >= 8 bytes)
  *   unlink S
  *   g                        stoGc()
+ *   chain N SZ W / chaincheck / chaindrop    a chain of N blocks of SZ bytes linked through the first (W=0) or last (W=1) word,
+ *                            rooted only at its head; walk it and check every node; forget it
  *   end
  * The shadow keeps only masked addresses, so it never keeps a block alive.  Code 21 is registered as
  * "has no internal pointers".  After a collection, blocks the shadow model finds unreachable are forgotten
@@ -98,10 +100,49 @@ static void verify_all(void)
 	}
 }
 
+/* A long chain of blocks outside the slot table: only its head is a root (static variable).  Each node links to the next
+ * through its first or its last word and carries its index, so a walk can tell that every node survived a collection. */
+static Pointer		chain_head;
+static long		chain_n, chain_sz, chain_lastword;
+static unsigned long	chain_bytes;
+
+static void chain_build(long n, long sz, long lastword)
+{
+	long i; Pointer next = 0;
+	if (sz < 24) sz = 24;
+	sz = (sz + 7) & ~7L;
+	chain_n = n; chain_sz = sz; chain_lastword = lastword; chain_bytes = 0;
+	for (i = n; i >= 1; i--) {
+		char *p = (char *) stoAlloc(OB_Other, sz); nalloc++;
+		long *w = (long *) p, words = sz / 8, k;
+		for (k = 0; k < words; k++) w[k] = 0;
+		w[lastword ? 0 : 1] = i;				/* index */
+		w[lastword ? 1 : 2] = (i * 2654435761UL) & 0xffffff;	/* small non-pointer pattern */
+		*(Pointer *) (p + (lastword ? stoSize(p) - 8 : 0)) = next;	/* the block may be larger than asked for */
+		next = (Pointer) p; chain_head = next;
+		chain_bytes += stoSize(p);
+	}
+}
+
+static void chain_check(void)
+{
+	char *p = (char *) chain_head; long i = 0;
+	while (p) {
+		long *w = (long *) p; char b[96];
+		i++;
+		if (!stoIsPointer(p)) { sprintf(b, "node=%ld", i); fail("chain-node-not-a-block", -1, b); }
+		if (w[chain_lastword ? 0 : 1] != i || w[chain_lastword ? 1 : 2] != (long) ((i * 2654435761UL) & 0xffffff)) {
+			sprintf(b, "node=%ld index-word=%ld", i, w[chain_lastword ? 0 : 1]); fail("chain-contents-changed", -1, b); }
+		p = (char *) *(Pointer *) (p + (chain_lastword ? stoSize(p) - 8 : 0));
+	}
+	if (i != chain_n) { char b[64]; sprintf(b, "walked=%ld built=%ld", i, chain_n); fail("chain-length-changed", -1, b); }
+}
+
 static void conservation(void)
 {
 	unsigned long live = 0, acct = stoBytesAlloc - stoBytesFree - stoBytesGc; int s;
 	for (s = 0; s < NS; s++) if (sh_addr[s]) live += sh_size[s];
+	live += chain_bytes;
 	if (acct < live || acct > live + (unsigned long) lostbytes) {
 		char b[120]; sprintf(b, "accounted=%lu shadow_live=%lu forgotten=%ld", acct, live, lostbytes);
 		fail("conservation", -1, b);
@@ -156,7 +197,7 @@ static int run_history(FILE *in)
 		if (!strcmp(op, "end")) { got_end = 1; continue; }
 		if (!strcmp(op, "mode")) { continue; }
 		if (!strcmp(op, "demand")) { demand = 1; stoCtl(StoCtl_GcLevel, StoCtl_GcLevel_Demand); continue; }
-		if (s < 0 || s >= NS) fail("harness-bad-slot", -1, line);
+		if (strncmp(op, "chain", 5) && (s < 0 || s >= NS)) fail("harness-bad-slot", -1, line);
 		if (!strcmp(op, "a")) {
 			char *p;
 			if (sh_addr[s]) fail("harness-slot-busy", s, "");
@@ -219,6 +260,12 @@ static int run_history(FILE *in)
 		} else if (!strcmp(op, "unlink")) {
 			if (!sh_addr[s] || sh_req[s] < 8) continue;
 			*(Pointer *) PTR(s) = 0; sh_link[s] = -1;
+		} else if (!strcmp(op, "chain")) {		/* chain N SZ LASTWORD */
+			chain_build(a, b, c);
+		} else if (!strcmp(op, "chaincheck")) {
+			chain_check();
+		} else if (!strcmp(op, "chaindrop")) {
+			lostbytes += chain_bytes; chain_bytes = 0; chain_head = 0; chain_n = 0;
 		} else if (!strcmp(op, "g")) {
 			scrub_stack();
 			stoGc(); ngc++; lastgcbytes = stoBytesGc;
